@@ -362,32 +362,16 @@ structure VM where
   result : Val := 0
   tries : List TryFrame := []     -- head = top
   iters : List IterItem := []     -- head = top
-  cnt : List (Nat × Option Nat) := []
+  cnt : Nat → Option Nat := fun _ => none   -- loop counter variables c<id>
   log : List Ev := []             -- in order
   halted : Option Compl := none
-  deriving Repr
-
-/-- Deviations of the code as it exists today from the intended mechanism (each is a reported
-defect, see design/C08.md); `{}` = intended mechanism.
-* `cof` ("close on fatal"): vm.go:818 — the tryPanicMarker frame calls restoreStacks, hence return()
-  on the open iterators, also for uncatchable payloads (`ex == nil`).
-* `keepCatch`: vm.go:4794 — enterFinally resets only finallyPos; catchPos of the frame stays armed,
-  so a throw inside the finally block (entered after a normal try block) is caught by the
-  statement's own catch clause and the finally block runs again. -/
-structure Quirks where
-  cof : Bool := false
-  keepCatch : Bool := false
-  deriving DecidableEq, Repr
 
 namespace VM
 
-def getCnt (vm : VM) (id : Nat) : Option Nat :=
-  match vm.cnt.find? (fun p => p.1 == id) with
-  | some p => p.2
-  | none => none
+def getCnt (vm : VM) (id : Nat) : Option Nat := vm.cnt id
 
 def setCnt (vm : VM) (id : Nat) (v : Option Nat) : VM :=
-  { vm with cnt := (id, v) :: vm.cnt.filter (fun p => p.1 != id) }
+  { vm with cnt := fun x => if x = id then v else vm.cnt x }
 
 def out (vm : VM) (e : Ev) : VM := { vm with log := vm.log ++ [e] }
 def next (vm : VM) : VM := { vm with pc := vm.pc + 1 }
@@ -413,17 +397,17 @@ def closeIters (len : Nat) (call : Bool) (vm : VM) : VM :=
   let (its, evs) := go vm.iters []
   { vm with iters := its, log := vm.log ++ evs }
 
-/-- vm.go:800 handleThrow.  `ex = none` is an uncatchable payload (exceptionFromValue returned nil).
-`cof` ("close on fatal") = whether the bottom tryPanicMarker frame calls return() on the open
-iterators also for uncatchable payloads, which is what vm.go:818 does today. -/
-def handleThrow (q : Quirks) (ex : Option Val) : List TryFrame → VM → VM
+/-- vm.go handleThrow.  `ex = none` is an uncatchable payload (exceptionFromValue returned nil):
+ordinary frames are skipped, and the tryPanicMarker frame truncates the iterator stack WITHOUT
+calling return() (`_restoreStacks(tf.iterLen, tf.refLen, ex != nil)`). -/
+def handleThrow (ex : Option Val) : List TryFrame → VM → VM
   | [], vm =>
     -- the tryPanicMarker frame pushed by runTry: restoreStacks, then the error leaves run()
-    let vm := closeIters 0 (ex.isSome || q.cof) { vm with tries := [] }
+    let vm := closeIters 0 ex.isSome { vm with tries := [] }
     { vm with halted := some (match ex with | some v => Compl.thr v | none => Compl.fatal) }
   | tf :: rest, vm =>
     if (tf.catchPos.isNone ∧ tf.finallyPos.isNone) ∨ ex.isNone then
-      handleThrow q ex rest vm
+      handleThrow ex rest vm
     else
       let vm := closeIters tf.iterLen true (vm.setSp tf.sp)
       match tf.catchPos, ex with
@@ -433,14 +417,14 @@ def handleThrow (q : Quirks) (ex : Option Val) : List TryFrame → VM → VM
       | _, _ =>
         match tf.finallyPos with
         | some p => { vm with pc := p, tries := { tf with exc := ex, finallyPos := none, finallyRet := none } :: rest }
-        | none => vm  -- unreachable
+        | none => { vm with tries := rest }  -- unreachable
 
-def throwV (q : Quirks) (ex : Option Val) (vm : VM) : VM := handleThrow q ex vm.tries vm
+def throwV (ex : Option Val) (vm : VM) : VM := handleThrow ex vm.tries vm
 
 def boolV (b : Bool) : Val := if b then 1 else 0
 
 /-- one instruction -/
-def step (q : Quirks) (vm : VM) : Instr → VM
+def step (vm : VM) : Instr → VM
   | .emit e => (vm.out e).next
   | .loadVal v => (vm.pushV v).next
   | .saveResult =>
@@ -463,7 +447,7 @@ def step (q : Quirks) (vm : VM) : Instr → VM
     | it :: _ => (vm.setCnt id (some it.val)).next
     | [] => vm.next
   | .catchLog i => (vm.out (Ev.caught i vm.top)).next
-  | .fatal => throwV q none (vm.out Ev.fatal)
+  | .fatal => throwV none (vm.out Ev.fatal)
   | .try_ c f =>
     -- vm.go:4760
     { vm with tries := { iterLen := vm.iters.length, sp := vm.stack.length,
@@ -483,8 +467,9 @@ def step (q : Quirks) (vm : VM) : Instr → VM
   | .enterFinally =>
     match vm.tries with
     | tf :: rest =>
-      { vm with tries := { tf with finallyPos := none,
-                                   catchPos := if q.keepCatch then tf.catchPos else none } :: rest }.next
+      -- vm.go enterFinally: finallyPos = -1; catchPos = -1 (an exception thrown inside 'finally' must
+      -- not be caught by this statement's own 'catch')
+      { vm with tries := { tf with finallyPos := none, catchPos := none } :: rest }.next
     | [] => vm.next
   | .leaveFinally =>
     -- vm.go:4800
@@ -492,7 +477,7 @@ def step (q : Quirks) (vm : VM) : Instr → VM
     | tf :: rest =>
       let vm := { vm with tries := rest }
       match tf.exc with
-      | some v => throwV q (some v) vm
+      | some v => throwV (some v) vm
       | none => match tf.finallyRet with
         | some r => { vm with pc := r }
         | none => vm.next
@@ -509,7 +494,7 @@ def step (q : Quirks) (vm : VM) : Instr → VM
       | some s =>
         let vm := vm.out (Ev.itNext s.id)
         if s.nextThrow = some it.idx then
-          throwV q (some (100 + s.id)) ({ vm with iters := rest }.out (Ev.itFail s.id))
+          throwV (some (100 + s.id)) ({ vm with iters := rest }.out (Ev.itFail s.id))
         else if s.n ≤ it.idx then
           ({ vm with iters := { it with sp := none } :: rest }.out (Ev.itDone s.id)).jmp off
         else { vm with iters := { it with val := it.idx, idx := it.idx + 1 } :: rest }.next
@@ -526,8 +511,8 @@ def step (q : Quirks) (vm : VM) : Instr → VM
         let vm := vm.out (Ev.itRet s.id)
         match s.ret with
         | .ok => vm.next
-        | .thr => throwV q (some (200 + s.id)) vm
-        | .nonobj => throwV q (some TE) vm
+        | .thr => throwV (some (200 + s.id)) vm
+        | .nonobj => throwV (some TE) vm
       | none => vm.next
     | [] => vm.next
   | .enumerate n => { vm with iters := { sp := none, n := n } :: vm.iters }.next
@@ -542,25 +527,25 @@ def step (q : Quirks) (vm : VM) : Instr → VM
   | .enterBlock n => { vm with stack := List.replicate n 0 ++ vm.stack }.next
   | .leaveBlock n => { vm with stack := vm.stack.drop n }.next
   | .ret => { vm with halted := some (Compl.ret vm.top) }
-  | .throw => throwV q (some vm.top) vm
+  | .throw => throwV (some vm.top) vm
   | .nop => { vm with halted := some (Compl.thr 998) }   -- executing an unpatched placeholder
 
-def run (q : Quirks) (code : Array Instr) : Nat → VM → VM
+def run (code : Array Instr) : Nat → VM → VM
   | 0, vm => vm
   | fuel + 1, vm =>
     match vm.halted with
     | some _ => vm
     | none =>
-      if h : vm.pc < code.size then run q code fuel (step q vm code[vm.pc])
+      if h : vm.pc < code.size then run code fuel (step vm code[vm.pc])
       else { vm with halted := some (Compl.normal none) }
 
 end VM
 
 /-- the observable result of running the compiled function body: the implicit `return undefined`
 at the end of a function is a normal completion for the caller. -/
-def runProgramWith (q : Quirks) (fuel : Nat) (p : Stmt) : Res × Nat × Nat :=
+def runProgramWith (fuel : Nat) (p : Stmt) : Res × Nat × Nat :=
   let code := compileProgram p
-  let vm := VM.run q code fuel {}
+  let vm := VM.run code fuel {}
   let endPc := code.size - 1
   let c : Compl := match vm.halted with
     | some (Compl.ret v) => if vm.pc = endPc ∧ !endsWithReturn p then Compl.normal none else Compl.ret v
@@ -568,7 +553,7 @@ def runProgramWith (q : Quirks) (fuel : Nat) (p : Stmt) : Res × Nat × Nat :=
     | none => Compl.thr 997       -- out of fuel
   ((c, vm.log), vm.tries.length, vm.iters.length)
 
-def runProgram (p : Stmt) : Res := (runProgramWith {} 200000 p).1
+def runProgram (p : Stmt) : Res := (runProgramWith 200000 p).1
 
 /-! ### listing -/
 
